@@ -40,6 +40,9 @@ func main() {
 			"power-loss model; a fresh process reopens, checks tip-was-active / utxo = fold / acknowledged blocks known, replays the remainder and checks convergence; for some k the recovery " +
 			"itself is killed at one of its own I/O events first; distinct = (workload, config, k, model, second-level k)")
 		c.Family("crash", c.N(28, 1400), runCase)
+		c.Family("recovery", c.N(14, 500), runRecoveryCase)
+		c.Require("recovery.crash_points", 30)
+		c.Require("recovery.startup_events", 50)
 		c.Require("crash.points", 150)
 		c.Require("crash.recovered_ok", 150)
 		c.Require("crash.during_recovery", 5)
@@ -58,7 +61,7 @@ type built struct {
 // opEnd[i] is the number of I/O events seen when op i of the reference run had returned.
 var opEnd []int
 
-func buildWorkload(k *mon.Case, dir string) (*Workload, int, []string, bool) {
+func buildWorkload(k *mon.Case, dir string, recoveryFamily bool) (*Workload, int, []string, bool) {
 	opEnd = nil
 	r := k.Rand
 	fam := []string{node.FamRegtest, node.FamVarWork}[r.Intn(2)]
@@ -66,6 +69,11 @@ func buildWorkload(k *mon.Case, dir string) (*Workload, int, []string, bool) {
 	g.MaxTx = 4
 	cfg := WConfig{UtxoCache: []uint64{0, 4096, 1 << 25}[r.Intn(3)], MaxBlockFileSize: []uint32{0, 2048, 16384}[r.Intn(3)],
 		LdbCacheBytes: []uint64{0, math.MaxUint64}[r.Intn(2)], FlushSecs: []uint32{0, math.MaxUint32}[r.Intn(2)]}
+	if recoveryFamily {
+		// the utxo cache is (almost) never flushed while the workload runs, so the consistency marker stays far
+		// behind the tip and recovery has many blocks to replay
+		cfg.UtxoCache = 1 << 25
+	}
 	var kinds []string
 	events := 0
 	cb := func(e node.IOEvent) error {
@@ -150,6 +158,9 @@ func buildWorkload(k *mon.Case, dir string) (*Workload, int, []string, bool) {
 				deliver(b)
 			}
 		case x < 84:
+			if recoveryFamily && i > nops/3 {
+				continue
+			}
 			mode := []blockchain.FlushMode{blockchain.FlushRequired, blockchain.FlushPeriodic, blockchain.FlushIfNeeded}[r.Intn(3)]
 			w.Ops = append(w.Ops, WOp{Kind: "flush", Arg: int(mode)})
 			s.Flush(mode)
@@ -198,7 +209,7 @@ func runCase(k *mon.Case) {
 	if os.Getenv("VERIF_KEEP") == "" {
 		defer os.RemoveAll(caseDir)
 	}
-	w, E, kinds, ok := buildWorkload(k, caseDir)
+	w, E, kinds, ok := buildWorkload(k, caseDir, false)
 	if !ok || w == nil {
 		return
 	}
@@ -274,37 +285,7 @@ func runCrash(k *mon.Case, caseDir string, w0 *Workload, kpt int, mode string, s
 		k.Count("inconclusive.died_elsewhere", 1)
 		return
 	}
-	// what was acknowledged, what was in progress, what is durable
-	acked, inprog := 0, -1
-	lastCommitLine := -1
-	ackLine := map[int]int{}
-	for li, l := range lines {
-		raw := rawOf(l)
-		if strings.HasPrefix(raw, "B ") {
-			f := strings.Fields(raw)
-			inprog, _ = strconv.Atoi(f[1])
-		} else if strings.HasPrefix(raw, "A ") {
-			f := strings.Fields(raw)
-			i, _ := strconv.Atoi(f[1])
-			if len(f) > 2 && f[2] == "ok" {
-				ackLine[i] = li // only a delivery that returned without error acknowledges storage
-			}
-			acked = i + 1
-			inprog = -1
-		}
-		if isEvent(l, "ldb-commit-post") {
-			lastCommitLine = li
-		}
-	}
-	w.Acked, w.InProgress = acked, inprog
-	w.Durable = nil
-	for i, op := range w.Ops {
-		if op.Kind == "blk" {
-			if li, ok := ackLine[i]; ok && li < lastCommitLine && refchain.Validity(w.Blocks[op.Block].Label) != refchain.InvalidEarly {
-				w.Durable = append(w.Durable, op.Block)
-			}
-		}
-	}
+	analyse(&w, lines)
 	w.save(filepath.Join(dir, "workload.json"))
 	if kpt-1 < len(kinds) {
 		k.Count("crash.at."+kinds[kpt-1], 1)
@@ -340,6 +321,40 @@ func runCrash(k *mon.Case, caseDir string, w0 *Workload, kpt int, mode string, s
 		k.Count("crash.recovered_ok", 1)
 	}
 	k.Eval(mon.Sig("crash", k.Index, kpt, mode, second), true)
+}
+
+// analyse derives from the crash log what was acknowledged, what was in progress and what is durable.
+func analyse(w *Workload, lines []crashkit.Line) {
+	acked, inprog := 0, -1
+	lastCommitLine := -1
+	ackLine := map[int]int{}
+	for li, l := range lines {
+		raw := rawOf(l)
+		if strings.HasPrefix(raw, "B ") {
+			f := strings.Fields(raw)
+			inprog, _ = strconv.Atoi(f[1])
+		} else if strings.HasPrefix(raw, "A ") {
+			f := strings.Fields(raw)
+			i, _ := strconv.Atoi(f[1])
+			if len(f) > 2 && f[2] == "ok" {
+				ackLine[i] = li // only a delivery that returned without error acknowledges storage
+			}
+			acked = i + 1
+			inprog = -1
+		}
+		if isEvent(l, "ldb-commit-post") {
+			lastCommitLine = li
+		}
+	}
+	w.Acked, w.InProgress = acked, inprog
+	w.Durable = nil
+	for i, op := range w.Ops {
+		if op.Kind == "blk" {
+			if li, ok := ackLine[i]; ok && li < lastCommitLine && refchain.Validity(w.Blocks[op.Block].Label) != refchain.InvalidEarly {
+				w.Durable = append(w.Durable, op.Block)
+			}
+		}
+	}
 }
 
 func report(k *mon.Case, rr *Result, key string, w *Workload) {
